@@ -150,6 +150,24 @@ impl Sci {
         if sa == 0 {
             return Ordering::Equal;
         }
+        if (self.e as i128 - o.e as i128).abs() > 4096 {
+            // exponents far apart: decide from rigorous bounds on log2 |value| where they separate,
+            // so that B^|Δe| is only spelled out for values of about the same magnitude
+            let l2 = (self.base as f64).log2();
+            let (lo_b, hi_b) = (l2 * (1.0 - 1e-12), l2 * (1.0 + 1e-12));
+            let bounds = |v: &Sci| -> (f64, f64) {
+                let (nb, db) = (v.n.bits() as f64, v.d.bits() as f64);
+                let (elo, ehi) = if v.e >= 0 { (v.e as f64 * lo_b, v.e as f64 * hi_b) } else { (v.e as f64 * hi_b, v.e as f64 * lo_b) };
+                (nb - 1.0 - db + elo - 1.0, nb - (db - 1.0) + ehi + 1.0)
+            };
+            let (a, b) = (bounds(self), bounds(o));
+            if a.0 > b.1 {
+                return if sa > 0 { Ordering::Greater } else { Ordering::Less };
+            }
+            if a.1 < b.0 {
+                return if sa > 0 { Ordering::Less } else { Ordering::Greater };
+            }
+        }
         let m = self.e.min(o.e);
         let l = &self.n * BigInt::from(&o.d * bpow(self.base, (self.e - m) as u64));
         let r = &o.n * BigInt::from(&self.d * bpow(self.base, (o.e - m) as u64));
